@@ -98,9 +98,13 @@ MODELS = {
                          model(4, 3, MaxChain=2, toks=(PLAIN, TOK_TR1, TOK_TR2, TOK_TR3), labels=('X', 'NP-1', 'S=2-1'), programs=[[o] for o in PTBS]),
                          model(3, 3, MaxChain=2, programs=[[o] for o in INS + SUB + FILT] + [[INS[3], SUB[5]], [SUB[2], INS[1]]])]},
     'C04': {'quick': [model(3, 2, MaxChain=2, toks=(PLAIN, TOK_COMMA, TOK_QUOTE), ops=ALLOPS, MaxOps=2),
-                      model(4, 2, toks=(PLAIN, TOK_COMMA), ops=ALLOPS, MaxOps=2, NMin=4)],
+                      model(4, 2, toks=(PLAIN, TOK_COMMA), ops=ALLOPS, MaxOps=2, NMin=4),
+                      model(4, 2, toks=(PLAIN, TOK_HD), NMin=3,
+                            programs=CROSS + [[NEGRA, SPLIT, RAISE, BIN], [ROOT_ATTACH, NEGRA, BIN, COL, UNC], [TOP, NEGRA, SPLIT, RAISE]])],
             'thorough': [model(3, 3, MaxChain=2, toks=(PLAIN, TOK_COMMA, TOK_QUOTE), edges=('--', 'HD'), ops=ALLOPS, MaxOps=3),
-                         model(4, 4, toks=(PLAIN, TOK_COMMA), ops=ALLOPS, MaxOps=2)]},
+                         model(4, 4, toks=(PLAIN, TOK_COMMA), ops=ALLOPS, MaxOps=2),
+                         model(5, 3, toks=(PLAIN, TOK_HD), NMin=3,
+                               programs=CROSS + [[NEGRA, SPLIT, RAISE, BIN], [ROOT_ATTACH, NEGRA, BIN, COL, UNC], [TOP, NEGRA, SPLIT, RAISE]])]},
 }
 
 CFG = """CONSTANTS N = %(N)d
